@@ -130,9 +130,9 @@ func c04Cases(tier string, group string) []c04Case {
 	ra := func(off int) cop { return cop{kind: "ReadAt", off: off} }
 	wa := func(off int, d string) cop { return cop{kind: "WriteAt", off: off, data: d} }
 	var out []c04Case
-	deep := 2
+	deep := 3
 	if tier == "thorough" {
-		deep = 3
+		deep = 4
 	}
 	if group == "" || group == "calls" {
 		bases := []callsSpec{
@@ -195,7 +195,7 @@ func c04Cases(tier string, group string) []c04Case {
 				s.cut = k
 				bd := 1
 				if tier == "thorough" {
-					bd = 2
+					bd = 3
 				}
 				out = append(out, c04Case{xfer: &s, bound: bd, desc: s.String()})
 			}
@@ -203,7 +203,11 @@ func c04Cases(tier string, group string) []c04Case {
 				for _, eof := range []bool{false, true} {
 					s := b
 					s.failWrite, s.fwEOF = j, eof
-					out = append(out, c04Case{xfer: &s, bound: 1, desc: s.String()})
+					fb := 1
+					if tier == "thorough" {
+						fb = 2
+					}
+					out = append(out, c04Case{xfer: &s, bound: fb, desc: s.String()})
 				}
 			}
 		}
@@ -274,7 +278,7 @@ func init() {
 		}
 		total.Notes["crash_point_cases_total"] = len(cases)
 		total.Notes["crash_point_cases_completed_this_shard"] = completed
-		total.Bound = fmt.Sprintf("%d (crash point x in-flight set) cases, each explored to its deviation bound (calls: db(2) quick / db(3) thorough; transfers: db(1) / db(2))", len(cases))
+		total.Bound = fmt.Sprintf("%d (crash point x in-flight set) cases, each explored to its deviation bound (calls: db(3) quick / db(4) thorough; transfers: db(1) / db(3), their failing writes db(1) / db(2))", len(cases))
 		return total
 	})
 	reg.Prop(&reg.Property{
